@@ -1,6 +1,7 @@
 //! Generated-program harness: the type corpora and declarations in gen_*.rs are produced by
 //! /verif/harness/gen/*.py on every run; this file only walks them and prints case lines.
 #![allow(unused, non_camel_case_types, clippy::all)]
+#![recursion_limit = "1024"]
 #[path = "../../../rt/src/proto.rs"]
 mod proto;
 mod gen_std;
